@@ -1,0 +1,46 @@
+//go:build verif
+
+package proxy
+
+// Export hooks for the verification harness (property C24). Add-only, no logic: they reach
+// the unexported flush entry point and read the queue counters of the two client handlers
+// built by verif_export_c25.go.
+
+import (
+	"go.minekube.com/gate/pkg/edition/java/netmc"
+	"go.minekube.com/gate/pkg/edition/java/proxy/phase"
+)
+
+// VerifC24FlushConfig is what backendLoginSessionHandler does once the backend reached CONFIG.
+func VerifC24FlushConfig(h netmc.SessionHandler, s *VerifC25Server) error {
+	return h.(*clientConfigSessionHandler).flushQueuedPluginMessagesTo(s.sc)
+}
+
+// VerifC24QueueStats returns (queued messages, counted bytes, overflow latch) of either client handler.
+func VerifC24QueueStats(h netmc.SessionHandler) (int, int, bool) {
+	switch t := h.(type) {
+	case *clientConfigSessionHandler:
+		t.mu.Lock()
+		defer t.mu.Unlock()
+		return t.mu.pluginMessages.Len(), t.mu.pluginMessagesBytes, t.mu.pluginMessagesOverflowed
+	case *clientPlaySessionHandler:
+		t.mu.Lock()
+		defer t.mu.Unlock()
+		return t.mu.loginPluginMessages.Len(), t.mu.loginPluginMessagesBytes, t.mu.loginPluginMessagesOverflowed
+	}
+	return -1, -1, false
+}
+
+// VerifC24SetConn attaches or detaches (nil) the backend connection of a server connection.
+func (s *VerifC25Server) VerifC24SetConn(mc netmc.MinecraftConn) {
+	s.sc.mu.Lock()
+	s.sc.connection = mc
+	s.sc.mu.Unlock()
+}
+
+// VerifC24SetPhase sets the backend connection phase of a server connection.
+func (s *VerifC25Server) VerifC24SetPhase(ph phase.BackendConnectionPhase) {
+	s.sc.mu.Lock()
+	s.sc.connPhase = ph
+	s.sc.mu.Unlock()
+}
